@@ -130,7 +130,7 @@ def check(run, prog, cg, RULE="C01-o"):
 
     # a store reached only through the snooper's receive_snoop() hook needs a non-interactive snooper that the
     # master allowed to snoop: reported as undecided
-    killers_strong = cg.reaches(wr - {"reset_interpreter"}, barriers=no_return | {"receive_snoop"})
+    killers_strong = cg.reaches(wr - {"reset_interpreter"}, barriers=no_return | {"receive_snoop"}, cut_edges=cg.snoop_edges())
 
     def mk_kill(f):
         def kill(n, st):
